@@ -89,6 +89,37 @@ def rule_F2(ctx):
                 src = " ; ".join(norm(d.value) for d in sorted(defs, key=lambda d: d.lineno))
             ok = ia.get(s) is not None and ia[s] in src
             det = "" if ok else f"reset gives `{src}`, constructor gives `{ia.get(s)}`"
+        if len(ra) != 1 and ia.get(s) is not None:
+            # decided per path for the call without arguments (what the flush does; kwargs.get(..) then gives None): on every such path
+            # the state ends up as the constructor's expression
+            from ..core.symexec import run_paths as _rp2
+            from .util import evaluator as _ev2
+            want_t = _ev2(ctx, init, {}).ev([a.value for a in own_nodes(init) if isinstance(a, ast.Assign) and dotted(a.targets[0]) == s][0]).key()
+            n_p, ok, det = 0, True, ""
+            for p_ in _rp2(ctx, rs, rule="F2"):
+                if p_.end not in ("return", "fall"):
+                    continue
+                feasible = True
+                for c_, t_, _n in p_.conds:
+                    if "kwargs.get(" in c_:
+                        inner = c_
+                        neg = False
+                        while inner.startswith("not(") and inner.endswith(")"):
+                            inner, neg = inner[4:-1], not neg
+                        if inner.startswith("truthy(kwargs.get("):
+                            feasible = feasible and ((not t_) != neg)
+                        elif inner.startswith("Is(kwargs.get(") and inner.endswith(",None)"):
+                            feasible = feasible and (t_ != neg)
+                        else:
+                            feasible = False
+                            ok, det = False, f"test `{c_[:80]}` on the handed-in history is not understood"
+                if not feasible:
+                    continue
+                n_p += 1
+                got_ = p_.env.get(s)
+                if got_ is None or got_.key() != want_t:
+                    ok, det = False, f"reset without arguments leaves {s} = `{got_.key() if got_ is not None else 'unchanged'}`, the constructor gives `{want_t}`"
+            ok = ok and n_p >= 1
         _ob(ctx, "F2", rs, f"FIR: reset_state restores {s} to its constructor value", ok, det, f"FirFilter:{s}", FIR, "FirFilter.reset_state")
     ii = _fn(ctx, IIR, "IirFilter.__init__", "F2")
     ok = any(isinstance(c, ast.Call) and norm(c) == "self.reset_state()" for c in own_nodes(ii))
@@ -142,6 +173,31 @@ def rule_F2(ctx):
     bp_, ap_ = ii.args.args[1].arg, ii.args.args[2].arg
     tk = lambda e_: _EvF().ev(e_).key() if e_ is not None else None  # noqa: E731
     ok = tk(sli["env"].get("self.n_x_prev")) in (f"max(0,-1 + len({bp_}))", f"max(-1 + len({bp_}),0)") and tk(sli["env"].get("self.n_y_prev")) in (f"max(0,-1 + len({ap_}))", f"max(-1 + len({ap_}),0)")
+    if not ok:
+        # the same clamp written as a choice: decided per path (n - 1 where n > 1, 0 otherwise)
+        from ..core.symexec import run_paths as _rp3
+        from ..core.terms import Term as _T3
+        from .util import path_conds_struct as _pcs3, cond_taken as _ct3
+        ok, n_p = True, 0
+        for p_ in _rp3(ctx, ii, rule="F2"):
+            if p_.end not in ("return", "fall"):
+                continue
+            n_p += 1
+            cs_ = _pcs3(ctx, ii, p_)
+            for key_, par_ in (("self.n_x_prev", bp_), ("self.n_y_prev", ap_)):
+                v_ = p_.env.get(key_)
+                d_ = _T3.atom(f"len({par_})") - _T3.const(1)
+                if v_ is None:
+                    ok = False
+                elif v_.key() in (f"max(0,-1 + len({par_}))", f"max(-1 + len({par_}),0)"):
+                    pass
+                elif v_ == d_ and (_ct3(cs_, d_, ">") or _ct3(cs_, d_, ">=")):
+                    pass
+                elif v_ == _T3.const(0) and (_ct3(cs_, d_, "<=") or _ct3(cs_, d_, "<")):
+                    pass
+                else:
+                    ok = False
+        ok = ok and n_p >= 1
     _ob(ctx, "F2", ii, "IIR: history lengths are len(B)-1 and len(A)-1", ok, "", "IirFilter:orders", IIR, "IirFilter.__init__")
 
 
@@ -472,7 +528,12 @@ def rule_F6(ctx):
         init = [s for s in cls.body if isinstance(s, ast.FunctionDef) and s.name == "__init__"]
         if init:
             body = [s for s in init[0].body if not (isinstance(s, ast.Expr) and isinstance(s.value, ast.Constant))]
-            ok = len(body) == 1 and isinstance(body[0], ast.Expr) and isinstance(body[0].value, ast.Call) and norm(body[0].value.func) == "super().__init__" \
+            # local names for the constants may precede the one call (plain locals bound to displays of names / constants: no state)
+            def _plain(e):
+                return not any(isinstance(x, (ast.Call, ast.Attribute, ast.Subscript, ast.Lambda, ast.NamedExpr, ast.Await, ast.Yield, ast.YieldFrom, ast.Starred)) for x in ast.walk(e))
+            pre_ok = all(isinstance(b_, ast.Assign) and all(isinstance(t_, ast.Name) or (isinstance(t_, ast.Tuple) and all(isinstance(u_, ast.Name) for u_ in t_.elts)) for t_ in b_.targets)
+                         and _plain(b_.value) for b_ in body[:-1])
+            ok = len(body) >= 1 and pre_ok and isinstance(body[-1], ast.Expr) and isinstance(body[-1].value, ast.Call) and norm(body[-1].value.func) == "super().__init__" \
                 and len(init[0].args.args) == 1 and not init[0].args.defaults
             ctx.ob("F6", init[0], f"preset {q}.__init__ only forwards constants to the core's constructor (no mutable defaults, no extra state)", ok, "", inst=f"{q}:init")
     if n < 5:
@@ -486,6 +547,17 @@ def rule_F6(ctx):
                f"sum {sum(h)} k {k} len {len(h)} delay {d}", inst="roland-fir-constants", file=COMMON, qualname="<module>")
     except (NotConst, AttributeError, IndexError) as e:
         raise AnalysisError("F6", COMMON, f"preset constants not foldable: {e}")
+    # the CDXtract FIR converts with astype(int16), which wraps: it stays inside the int16 range only because the taps' absolute sum keeps a
+    # full-scale input at full scale (32767 * gain < 32768 and 32768 * gain < 32769, i.e. gain < 32769/32768)
+    from fractions import Fraction as _Fr
+    try:
+        hc = ctx.folder.ev(ctx.prog.assigned(COMMON, "_cdxtract_roland_deemph_h", "F6").args[0], m)
+        gain = sum(abs(_Fr(x_)) for x_ in hc)
+        ok = len(hc) >= 4 and all(isinstance(x_, (int, float)) and not isinstance(x_, bool) for x_ in hc) and gain < _Fr(32769, 32768)
+        ctx.ob("F6", ctx.prog.assigned(COMMON, "_cdxtract_roland_deemph_h"), "CDXtract FIR: the taps' absolute sum keeps a full-scale 16-bit signal inside the int16 range (no wrap-around on conversion)",
+               ok, f"sum |h| = {float(gain)!r}", inst="cdxtract-gain", file=COMMON, qualname="<module>")
+    except (NotConst, AttributeError, IndexError, TypeError) as e:
+        raise AnalysisError("F6", COMMON, f"CDXtract kernel not foldable: {e}")
     # element types of the coefficient tables: the first block is convolved against the float64 zero history, later blocks against a view
     # of the caller's samples - with a kernel narrower than float64 numpy would pick a different result type for the two cases, and the
     # output would depend on where the block boundaries fall
